@@ -1,7 +1,7 @@
 (** Closed (section-free) statements about the Rescorla-Wagner learners that
     the property files cite. *)
 From Coq Require Import ZArith List Bool Lia Ring.
-From PV Require Import Lists Bytes BinFmt BinFmtProofs Store RWSpec RWExec RWProofs Sched SchedProofs.
+From PV Require Import Lists Bytes BinFmt BinFmtProofs Store RWSpec RWExec RWProofs Sched SchedProofs QueueProofs QueueTrace.
 Import ListNotations.
 
 (** ** duplicate policies *)
@@ -133,6 +133,25 @@ Section Main.
     - intros; now apply kget_kset_other.
     - now rewrite Hcat.
     - now rewrite Hcat.
+  Qed.
+
+  (** ... and end to end with the worker threads themselves (QueueTrace): for every
+      number of threads and EVERY schedule of the lock / queue / work-loop steps that
+      ends with all threads done, the memory the threads leave behind is the
+      sequential result *)
+  Theorem threading_workers_any_schedule p n_cues all n es n_threads sched m o c :
+    (0 <= n_cues < two32)%Z -> NoDup all -> Forall oko32 all ->
+    cues_ok (okc_n n_cues) es -> (1 <= n)%nat -> (1 <= n_threads)%nat ->
+    let seqs := map (fun part => item_actions part es) (slice_list all n) in
+    let s := wrun seqs sched (winit (seq 0 (length seqs)) n_threads) in
+    all_done (qs s) = true ->
+    oko32 o -> okc_n n_cues c ->
+    kget n_cues (k_run_trace n_cues p (wtrace s) m) o c =
+    if mem_z o all then learn p es (kget n_cues m) o c else kget n_cues m o c.
+  Proof.
+    intros Hn Hnd Hall Hes Hn1 Hnt seqs s Hd Ho Hc.
+    apply threading_any_schedule with (n := n); try assumption.
+    exact (worker_trace_interleaving seqs n_threads sched Hnt Hd).
   Qed.
 
   (** OpenMP entry point: barrier per chunk file, any interleaving inside *)
